@@ -159,6 +159,7 @@ func (v *vSeq) counters() protocol.LockDBState {
 type vHoldSnap struct {
 	lockId, depth, req, count int
 	expT                      int64
+	long                      bool
 }
 
 type vKeySnap struct {
@@ -187,7 +188,7 @@ func (v *vSeq) keySnap(key int) vKeySnap {
 	ks.data = m.GetLockData()
 	add := func(l *Lock) {
 		if l != nil && l.locked > 0 && l.command != nil {
-			ks.holds = append(ks.holds, vHoldSnap{vInt16(l.command.LockId), int(l.locked), vInt16(l.command.RequestId), int(l.command.Count), l.expriedTime})
+			ks.holds = append(ks.holds, vHoldSnap{vInt16(l.command.LockId), int(l.locked), vInt16(l.command.RequestId), int(l.command.Count), l.expriedTime, l.longWaitIndex > 0})
 		}
 	}
 	add(m.currentLock)
@@ -292,6 +293,8 @@ type vGen struct {
 	nids    int
 	nconn   int
 	profile int
+	hint    func(key int) (vHoldSnap, int64, bool) // a live hold of the key and the current time (long-lived profile)
+	statf   func(string)
 }
 
 func (g *vGen) lockOp() vOp {
@@ -302,12 +305,12 @@ func (g *vGen) lockOp() vOp {
 	o.tflag = vPick(r, []int{0, 0x40, 0x10, 0x200, 0x210, 0x2000}, []int{62, 4, 16, 10, 4, 4})
 	o.timeout = vPick(r, []int{0, 1, 2, 3, 5, 9, 12, 20, 65535}, []int{25, 12, 12, 10, 12, 10, 8, 9, 2})
 	if o.tflag&0x40 != 0 {
-		o.timeout = vPick(r, []int{0, 1, 2}, []int{2, 5, 3})
+		o.timeout = vPick(r, []int{0, 1, 2, 1092, 1093, 1100, 65535}, []int{2, 5, 3, 1, 1, 1, 1})
 	}
 	o.eflag = vPick(r, []int{0, 0x40, 0x4000, 0x2000}, []int{80, 4, 10, 6})
 	o.expried = vPick(r, []int{0, 1, 2, 3, 5, 8, 10, 15, 30, 120, 65535}, []int{8, 10, 12, 12, 12, 10, 10, 10, 8, 6, 2})
 	if o.eflag&0x40 != 0 {
-		o.expried = vPick(r, []int{0, 1, 2}, []int{1, 6, 3})
+		o.expried = vPick(r, []int{0, 1, 2, 1092, 1093, 1100, 65535}, []int{1, 6, 3, 1, 1, 1, 1})
 	}
 	o.count = vPick(r, []int{0, 1, 2, 3, 0xffff}, []int{40, 22, 18, 14, 6})
 	o.rcount = vPick(r, []int{0, 1, 2, 3, 255}, []int{45, 20, 15, 12, 8})
@@ -317,6 +320,32 @@ func (g *vGen) lockOp() vOp {
 	if g.profile == 1 { // capacity-heavy: many holders
 		o.count = vPick(r, []int{2, 3, 5, 0xffff}, []int{30, 30, 30, 10})
 		o.lockId = 1 + r.Intn(g.nids*3)
+	}
+	if g.profile == 3 { // long-lived: holds and waits that migrate to the long tables (> 8 re-checks ≈ 44 s), then re-locks / updates
+		o.flag = vPick(r, []int{0, 2, 3}, []int{60, 30, 10})
+		o.tflag = vPick(r, []int{0, 0x10, 0x2000}, []int{80, 10, 10})
+		o.eflag = vPick(r, []int{0, 0x2000, 0x4000}, []int{85, 10, 5})
+		o.timeout = vPick(r, []int{0, 50, 60, 90, 200}, []int{30, 20, 20, 20, 10})
+		o.expried = vPick(r, []int{50, 60, 100, 120, 300}, []int{20, 20, 25, 25, 10})
+		o.count = vPick(r, []int{0, 1, 2}, []int{30, 40, 30})
+		o.rcount = vPick(r, []int{0, 3, 255}, []int{20, 40, 40})
+		o.lockId = 1 + r.Intn(3)
+		if g.hint != nil && r.Intn(100) < 60 {
+			// aim at an existing hold: same LockId, and an expiry that lands on (or next to) its current deadline second
+			if h, now, ok := g.hint(o.key); ok {
+				if g.statf != nil {
+					g.statf(fmt.Sprintf("hint-used(long=%v)", h.long))
+				}
+				o.lockId = h.lockId
+				if h.expT != 0x7fffffffffffffff && h.expT > now+1 {
+					d := int(h.expT-now) - 1 + vPick(r, []int{0, 0, 1, -1, 7, -7}, []int{40, 20, 10, 10, 10, 10})
+					if d > 0 && d < 65535 {
+						o.expried = d
+						o.eflag &^= 0x4040
+					}
+				}
+			}
+		}
 	}
 	if g.profile == 2 { // queue-heavy: exclusive locks, long waits, priorities
 		o.count = vPick(r, []int{0, 1}, []int{80, 20})
@@ -360,7 +389,31 @@ func (x *vRun) do(o vOp) string {
 		}
 	}
 	x.mon.before(x, o)
+	if o.kind == 'L' || o.kind == 'U' {
+		for _, h := range x.v.keySnap(o.key).holds {
+			if h.lockId == o.lockId && h.long {
+				x.mon.out.stat(fmt.Sprintf("%c-on-long-table-hold(flag=%d)", o.kind, o.flag&3))
+			}
+		}
+	}
 	ob := x.v.apply(o, append([]int{}, x.keys...))
+	x.mon.out.stat("op-" + string(o.kind))
+	if o.kind == 'T' {
+		for _, key := range x.keys {
+			for _, h := range x.v.keySnap(key).holds {
+				if h.long {
+					x.mon.out.stat(fmt.Sprintf("tick-with-long-table-hold(profile=%d)", x.g.profile))
+				} else {
+					x.mon.out.stat(fmt.Sprintf("tick-with-slot-hold(profile=%d)", x.g.profile))
+				}
+			}
+		}
+	}
+	for _, rp := range strings.Split(ob, ",") {
+		if f := strings.Split(rp, ":"); len(f) == 8 {
+			x.mon.out.stat("reply-result-" + f[2])
+		}
+	}
 	x.ops = append(x.ops, o)
 	x.obs = append(x.obs, ob)
 	x.times = append(x.times, x.v.db.currentTime)
@@ -371,8 +424,15 @@ func (x *vRun) do(o vOp) string {
 func (x *vRun) body(n int) {
 	r := x.g.r
 	leader := true
-	for len(x.ops) < n {
+	for steps := 0; steps < n; steps++ { // a burst of ticks counts as one step
 		c := r.Intn(100)
+		if !leader && c < 40 {
+			c = 99 // do not linger in a non-leader role
+		}
+		if x.g.profile == 3 && c < 97 {
+			// long-lived profile: few unlocks, long stretches of time
+			c = vPick(r, []int{10, 60, 80, 95}, []int{38, 7, 50, 5})
+		}
 		switch {
 		case c < 48:
 			x.do(x.g.lockOp())
@@ -380,6 +440,9 @@ func (x *vRun) body(n int) {
 			x.do(x.g.unlockOp())
 		case c < 92:
 			k := vPick(r, []int{1, 2, 3, 6, 11, 17}, []int{50, 20, 12, 8, 6, 4})
+			if x.g.profile == 3 {
+				k = vPick(r, []int{1, 5, 12, 25, 47, 61}, []int{20, 20, 20, 15, 15, 10})
+			}
 			for i := 0; i < k; i++ {
 				x.do(vOp{kind: 'T'})
 			}
@@ -442,6 +505,19 @@ func vEngineRun(t *testing.T, mode string, profileOf func(i int) int, opsPer int
 			x.keys = append(x.keys, g.keyBase+k)
 		}
 		x.mon = vNewMonitor(out, x)
+		g.statf = out.stat
+		g.hint = func(key int) (vHoldSnap, int64, bool) {
+			ks := v.keySnap(key)
+			if len(ks.holds) == 0 {
+				return vHoldSnap{}, 0, false
+			}
+			for _, h := range ks.holds {
+				if h.long && r.Intn(4) != 0 {
+					return h, v.db.currentTime, true
+				}
+			}
+			return ks.holds[r.Intn(len(ks.holds))], v.db.currentTime, true
+		}
 		v.base = v.counters()
 		v.onReply = x.mon.onReply
 		now0 := v.db.currentTime
@@ -493,6 +569,6 @@ func vEngineRun(t *testing.T, mode string, profileOf func(i int) int, opsPer int
 
 func init() {
 	vModes["engine"] = func(t *testing.T) {
-		vEngineRun(t, "engine", func(i int) int { return []int{0, 0, 1, 2}[i%4] }, vEnvInt("VERIF_OPS", 40))
+		vEngineRun(t, "engine", func(i int) int { return []int{0, 0, 1, 2, 3}[i%5] }, vEnvInt("VERIF_OPS", 40))
 	}
 }
